@@ -711,6 +711,20 @@ func pageAppendScript(k int, peek bool, appends []string) []string {
 	return append(ops, "d")
 }
 
+// midAppendScript: the same WITHOUT the Release: records are appended between two calls in the middle of a page
+// (theorem appends_at_any_boundary: in order for every partition that has not been exhausted)
+func midAppendScript(k int, peek bool, appends []string) []string {
+	var ops []string
+	for i := 0; i < k; i++ {
+		ops = append(ops, "g", "n")
+	}
+	if peek {
+		ops = append(ops, "g")
+	}
+	ops = append(ops, appends...)
+	return append(ops, "d")
+}
+
 // appendOracle recognises a pageAppendScript and says what every source read alone delivers after the page boundary:
 // its records (the appended ones included) from the first one the first page did not consume
 func appendOracle(ls []leafSpec, ops []string, toks []string) (alone map[int][]ev, ok bool) {
@@ -728,10 +742,13 @@ func appendOracle(ls []leafSpec, ops []string, toks []string) (alone map[int][]e
 	if i < len(ops) && ops[i] == "g" {
 		i++
 	}
-	if i >= len(ops) || ops[i] != "r" {
+	if i >= len(ops) {
 		return nil, false
 	}
-	i++
+	released := ops[i] == "r"
+	if released {
+		i++
+	}
 	all := map[int][]ev{}
 	for _, l := range ls {
 		all[l.Tags] = l.events(false)
@@ -739,6 +756,11 @@ func appendOracle(ls []leafSpec, ops []string, toks []string) (alone map[int][]e
 	for i < len(ops)-1 {
 		k, ts, msg, ok := parseAppend(ops[i])
 		if !ok || k < 0 || k >= len(ls) {
+			return nil, false
+		}
+		if !released && cnt[ls[k].Tags] >= len(ls[k].Recs) {
+			// in the middle of a page only partitions that have not been exhausted are promised anything
+			// (cex_midpage_append_to_exhausted_partition); the answers are still compared with the model
 			return nil, false
 		}
 		all[ls[k].Tags] = append(all[ls[k].Tags], ev{ts, msg, ls[k].Tags})
@@ -881,7 +903,7 @@ func runMixerCase0(c mixerCase, sec *vh.Section) pending {
 	impl := strings.Join(toks, " ")
 	if alone, ok := appendOracle(ls, c.Ops, toks); ok && len(drains) == 1 {
 		got := drains[0]
-		what := "read continued after a page boundary (Get, Release) behind which records were appended to the partitions"
+		what := "read continued after records were appended to the partitions (behind a page boundary = Get, Release; or, without a Release, to partitions not yet exhausted)"
 		if kind, w := checkProperty(got, alone, false); kind != "" {
 			res.SpecFail(vh.SpecFailure{Section: "mixer", Kind: kind, Input: c, Impl: evsString(got), Spec: evsString(specTreeWith(c.Tree, false, alone)),
 				What: what + ": " + w})
@@ -1096,6 +1118,8 @@ func sectionMixer(rng *vh.Rng, corpus []mixerCase) {
 						ap := fmt.Sprintf("a%d:9:%d", who, (who+1)*1000+500)
 						ps = append(ps, runMixerCase(mixerCase{t, pageAppendScript(k, peek, []string{ap})}, sec))
 						res.Dist(sec, "exhaustive-2x2-page-append")
+						ps = append(ps, runMixerCase(mixerCase{t, midAppendScript(k, peek, []string{ap})}, sec))
+						res.Dist(sec, "exhaustive-2x2-midpage-append")
 					}
 				}
 			}
@@ -1169,6 +1193,8 @@ func sectionMixer(rng *vh.Rng, corpus []mixerCase) {
 			if aps := genAppends(rng, ls); aps != nil {
 				ps = append(ps, runMixerCase(mixerCase{t, pageAppendScript(rng.Range(0, totalRecs(ls)+1), rng.Bool(), aps)}, sec))
 				res.Dist(sec, "page-append")
+				ps = append(ps, runMixerCase(mixerCase{t, midAppendScript(rng.Range(0, totalRecs(ls)+1), rng.Bool(), aps)}, sec))
+				res.Dist(sec, "midpage-append")
 			}
 		}
 		c := mixerCase{t, genOps(rng, rng.Range(6, 30))}
@@ -1630,6 +1656,24 @@ func runSystemCase(srv *lrsrv.Srv, c systemCase, sec *vh.Section, limit int) (ps
 			got, err = readBackward(srv, q, lineToPart, total+2)
 		} else {
 			got, err = readForward(srv, q, lineToPart)
+			// the same read through the RPC encoder/decoder (api/rpc: queryResultBuilder.writeLogEvent, unmarshalQueryResult): every
+			// event must arrive with the same timestamp, payload and TAG LINE as in the in-process answer
+			if err == nil && srv.Client != nil {
+				var qr api.QueryResult
+				if rerr := srv.Client.Query(ctx, &api.QueryRequest{Query: q, Limit: 10000}, &qr); rerr == nil && qr.Err == nil {
+					var viaRPC []ev
+					for _, e := range qr.Events {
+						viaRPC = append(viaRPC, sysEv(e.Timestamp, e.Message, e.Tags, lineToPart))
+					}
+					res.Dist(sec, "rpc-read")
+					if evsString(viaRPC) != evsString(got) {
+						res.SpecFail(vh.SpecFailure{Section: "system", Kind: "wrong-attribution", Input: c, Impl: evsString(viaRPC), Spec: evsString(got),
+							What: "the merged read through the RPC client differs from the in-process answer of the same query (events or their tag lines)"})
+					}
+				} else {
+					res.Note("system: rpc read failed: %v %v", rerr, qr.Err)
+				}
+			}
 		}
 		if !back {
 			// MODEL: GetJournals over c.N matching partitions with the regenerated limit: the answer and how many
@@ -1779,18 +1823,29 @@ func runSystemCase(srv *lrsrv.Srv, c systemCase, sec *vh.Section, limit int) (ps
 	// held cursor keeps its partitions acquired until the provider drops it.)
 	if c.N >= 2 && c.N < limit && total >= 4 {
 		k := 1 + (total*5+c.N)%(total-3)
-		r1, err := srv.Querier.Query(ctx, &api.QueryRequest{Query: q, Limit: k, WaitTimeout: 1})
+		// a waiting query over a changed implementation may spin (a partition the tree lost has unread data: WaitNewData
+		// returns at once, Get answers EOF, and so on): every waiting query gets a deadline, and a missed deadline is a failure
+		hctx, hcancel := context.WithTimeout(ctx, 40*time.Second)
+		defer hcancel()
+		t0h := time.Now()
+		defer func() {
+			if hctx.Err() != nil && time.Since(t0h) >= 40*time.Second {
+				res.SpecFail(vh.SpecFailure{Section: "system", Kind: "hang", Input: c, Impl: "no answer within 40 s", Spec: "an answer",
+					What: fmt.Sprintf("a waiting query (WaitTimeout 1) over %d partitions did not come back", c.N)})
+			}
+		}()
+		r1, err := srv.Querier.Query(hctx, &api.QueryRequest{Query: q, Limit: k, WaitTimeout: 1})
 		if (err == nil || err == io.EOF) && r1 != nil && len(r1.Events) == k {
 			nq := r1.NextQueryRequest
 			nq.Limit = (total - k) / 2
 			if nq.Limit < 1 {
 				nq.Limit = 1
 			}
-			r2, err2 := srv.Querier.Query(ctx, &nq)
+			r2, err2 := srv.Querier.Query(hctx, &nq)
 			if (err2 == nil || err2 == io.EOF) && r2 != nil && len(r2.Events) == nq.Limit {
 				rq := r1.NextQueryRequest // ReqId of the held cursor, position after page 1
 				rq.Limit = 10000
-				r3, err3 := srv.Querier.Query(ctx, &rq)
+				r3, err3 := srv.Querier.Query(hctx, &rq)
 				in := map[string]interface{}{"case": c, "page1": k, "page2": nq.Limit}
 				if !(err3 == nil || err3 == io.EOF) || r3 == nil {
 					res.SpecFail(vh.SpecFailure{Section: "system", Kind: "query-failed", Input: in, Impl: fmt.Sprint(err3), Spec: "the events behind page 1",
@@ -1912,7 +1967,13 @@ func sectionSystem(rng *vh.Rng, corpus []systemCase) {
 					stop()
 					dir = lrsrv.NewDir()
 					var err error
-					srv, err = lrsrv.Start(dir, lrsrv.Opts{NoRPC: true})
+					srv, err = lrsrv.Start(dir, lrsrv.Opts{})
+					if err != nil {
+						// the RPC listener could not be set up (port race on a shared machine): go on without the RPC read
+						os.RemoveAll(dir)
+						dir = lrsrv.NewDir()
+						srv, err = lrsrv.Start(dir, lrsrv.Opts{NoRPC: true})
+					}
 					if err != nil {
 						res.Note("system: %v", err)
 						srv = nil
@@ -1951,6 +2012,9 @@ type corpusDoc struct {
 	Input   json.RawMessage `json:"input"`
 }
 
+var queryCorpus []queryCase
+var heldCorpus []heldCase
+
 func loadCorpus() (mc []mixerCase, cc []cursorCase, sc []systemCase) {
 	for _, f := range vh.CorpusFiles(args.Corpus) {
 		var d corpusDoc
@@ -1964,6 +2028,16 @@ func loadCorpus() (mc []mixerCase, cc []cursorCase, sc []systemCase) {
 
 func addDoc(d corpusDoc, mc *[]mixerCase, cc *[]cursorCase, sc *[]systemCase) {
 	switch d.Section {
+	case "held":
+		var c heldCase
+		if json.Unmarshal(d.Input, &c) == nil && len(c.Parts) > 0 && c.Page1 > 0 {
+			heldCorpus = append(heldCorpus, c)
+		}
+	case "query":
+		var c queryCase
+		if json.Unmarshal(d.Input, &c) == nil && len(c.Leaves) > 0 && len(c.Idx) == len(c.Leaves) {
+			queryCorpus = append(queryCorpus, c)
+		}
 	case "mixer":
 		var c mixerCase
 		if json.Unmarshal(d.Input, &c) == nil && c.Tree != nil {
@@ -2000,8 +2074,28 @@ func replay(path string) {
 	var mc []mixerCase
 	var cc []cursorCase
 	var sc []systemCase
+	queryCorpus, heldCorpus = nil, nil
 	addDoc(d, &mc, &cc, &sc)
 	switch {
+	case len(heldCorpus) > 0:
+		sec := res.Section("held", "replay", "replay of one recorded held-cursor scenario")
+		dir := lrsrv.NewDir()
+		defer os.RemoveAll(dir)
+		srv, err := lrsrv.Start(dir, lrsrv.Opts{NoRPC: true})
+		if err != nil {
+			res.Fatal(args.Out, "replay: %v", err)
+		}
+		runHeldCase(srv, heldCorpus[0], sec)
+		srv.Stop()
+	case len(queryCorpus) > 0:
+		sec := res.Section("query", "replay", "replay of one recorded query over failing sources")
+		if qp, ok := runQueryCase(queryCorpus[0], sec); ok {
+			outs, _ := vh.Batch(args.Driver, []string{qp.c.line()})
+			fmt.Printf("request: %s\nimpl:    %s\nhealthy: %s\nmodel:   %s\n", qp.c.line(), qp.impl, qp.heal, strings.Join(outs, ""))
+			if len(outs) == 1 {
+				judgeQuery(qp, outs[0])
+			}
+		}
 	case len(mc) > 0:
 		sec := res.Section("mixer", "replay", "replay of one recorded (tree, script)")
 		p := runMixerCase(mc[0], sec)
@@ -2060,6 +2154,8 @@ func main() {
 	mc, cc, sc := loadCorpus()
 	sectionMixer(rng.Fork("mixer"), mc)
 	sectionCursor(rng.Fork("cursor"), cc)
+	sectionQuery(rng.Fork("query"), queryCorpus)
+	sectionHeld(rng.Fork("held"), heldCorpus)
 	sectionSystem(rng.Fork("system"), sc)
 	res.Write(args.Out)
 }
